@@ -209,6 +209,9 @@ def record(ctx, binp, tag, seed, runs, ops, rounds, g=0, small=False, defrag=Tru
     for f in fails:
         if f["fail"] == "crash" and not f.get("in_allocator"):
             raise Infra("record driver crashed outside the allocator: %s\n%s" % (f["what"], f.get("stack", "")[-2000:]))
+    if defrag and not fails and summary.get("passes_2_classes_relocating", 0) < 1:
+        # DefragAllImproved starts one goroutine per class over the threshold: the workload must make them overlap
+        raise Infra("record %s: no defragmentation pass with two or more classes relocating records (%s)" % (tag, summary))
     return tr, fails, summary, p
 
 
@@ -267,10 +270,32 @@ def judge_trace(ctx, tag, tr, opts_path, info, strict_res, seed_note):
     what = "recorded run breaks C20 at event %d (%s): %s" % (at2, ev, lines[at2 - 1][:240] if at2 <= nev else "")
     if r2.invariant:
         what = "invariant %s violated on a recorded run (after event %s)" % (r2.invariant, at2 - 1)
-    ctx.violation("C20:trace:%s:%s" % (ev, r2.invariant or r.invariant or "rejected"),
+    reason = r2.invariant or r.invariant or "rejected"
+    if ev in ("dbegin", "dall", "dallend") or (ev == "dsel" and not r2.invariant and pass_mismatch(lines, at2)):
+        # defragClass runs for a class the pass did not choose (or twice for one class): "one goroutine per class"
+        # is what protects the per-class state
+        reason = "wrong-class"
+        what = "defragClass ran for a class DefragAllImproved did not start it for (event %d %s): %s" % (at2, ev, lines[at2 - 1][:160])
+    ctx.violation("C20:trace:%s:%s" % (ev, reason),
                   {"set": tag, "note": seed_note, "trace_tail": lines[max(0, at2 - 60):at2 + 1],
                    "strict": strict_what, "tlc": r2.tail[-2500:]}, what)
     return 0, r
+
+
+def pass_mismatch(lines, at):
+    """Is the dsel event at line `at` (1-based) outside what the current pass chose/started? (dall / dbegin since the
+    last dallend)"""
+    try:
+        c = json.loads(lines[at - 1])["c"]
+    except Exception:
+        return False
+    begun = 0
+    for l in reversed(lines[:at - 1]):
+        if '"ev":"dallend"' in l or '"ev":"Reset"' in l:
+            break
+        if '"ev":"dbegin"' in l and json.loads(l)["c"] == c:
+            begun += 1
+    return begun != 1
 
 
 def race_reports(stderr):
@@ -332,7 +357,7 @@ def run(ctx):
     # ---- 3a. record seeded concurrent runs and start their validation (TLC works on them while 2. runs)
     S = ctx.seed
     if quick:
-        recsets = [("R1", dict(seed=S, runs=4, ops=110, rounds=4)),
+        recsets = [("R1", dict(seed=S, runs=3, ops=80, rounds=4)),
                    ("R2", dict(seed=S + 1000, runs=4, ops=90, rounds=4, small=True)),
                    ("R3", dict(seed=S + 2000, runs=2, ops=100, rounds=3, g=16, defrag=False, env={"VERIF_YIELD": str(S)}))]
     else:
@@ -347,6 +372,9 @@ def run(ctx):
     for tag, kw in recsets:
         tr, fails, summary, _ = record(ctx, binp, tag, **kw)
         ctx.log("trace set %s: %s" % (tag, summary))
+        ctx.cov["defrag_passes"] = ctx.cov.get("defrag_passes", 0) + summary.get("defrag_passes", 0)
+        ctx.cov["defrag_passes_with_2+_classes_relocating"] = ctx.cov.get("defrag_passes_with_2+_classes_relocating", 0) + \
+            summary.get("passes_2_classes_relocating", 0)
         for f in fails:
             ctx.violation("C20:run:" + f["fail"] + ":" + re.sub(r"\d+", "N", f["what"])[:60],
                           {"set": tag, "args": {k: v for k, v in kw.items()}, "failure": f}, f["what"])
